@@ -49,6 +49,8 @@ import pickle
 import re
 import shutil
 import signal
+import threading
+import time
 import types
 import zlib
 
@@ -377,6 +379,8 @@ class Bench(object):
         self.park = os.path.join(root, "park")
         os.makedirs(self.park, exist_ok=True)
         self.parked, self.nparked = [], 0
+        self.unstable_walks = 0
+        self.watch_threads = False      # set once the code under test was seen to use threads
         self.template = pipeline.PipelineManager(self.work)      # __init__ only reads the store configuration
         self.real_io = pipeline.PipelineIo.load_from_config(os.path.join(self.work, "toasty-store-config.yaml"))
         class Cand(pipeline.CandidateInput):
@@ -415,6 +419,15 @@ class Bench(object):
     # ---- disk state --------------------------------------------------------------------------
     def restore(self, snap):
         """Bring the work dir and the store to `snap`, touching only what differs from what is on disk now."""
+        try:
+            self._restore(snap)
+        except OSError:
+            # the disk is not what the last snapshot said (something the code under test left running wrote to it
+            # later): start from empty directories
+            self.current = None
+            self._restore(snap)
+
+    def _restore(self, snap):
         root = os.path.dirname(self.work)
         cur = self.current
         if cur is None:
@@ -423,7 +436,7 @@ class Bench(object):
             for e in self._listdir(self.store):
                 if e != STORE_CFG:
                     shutil.rmtree(os.path.join(self.store, e), ignore_errors=True)
-            os.makedirs(os.path.join(self.work, "approved"))
+            os.makedirs(os.path.join(self.work, "approved"), exist_ok=True)
             cur = {}
         for rel in sorted(cur, reverse=True):
             if rel not in snap or (snap[rel] is None) != (cur[rel] is None):
@@ -442,8 +455,9 @@ class Bench(object):
             p = os.path.join(root, rel)
             if snap[rel] is None:
                 if not os.path.isdir(p):
-                    if self.parked:
-                        os.rename(self.parked.pop(), p)
+                    q = self.parked.pop() if self.parked else None
+                    if q is not None and not self._listdir(q):
+                        os.rename(q, p)
                     else:
                         os.makedirs(p)
             else:
@@ -452,6 +466,22 @@ class Bench(object):
         self.current = dict(snap)
 
     def snapshot(self):
+        """The byte contents of work dir and store.  The code under test may have left threads running that still
+        create / rename / remove files: entries that vanish during the walk are treated as absent, and the walk is
+        repeated until two consecutive walks agree (bounded)."""
+        prev = self._walk()
+        if self.watch_threads:
+            for attempt in range(200):
+                time.sleep(0.002 if attempt < 20 else 0.02)
+                snap = self._walk()
+                if snap == prev:
+                    break
+                prev = snap
+                self.unstable_walks += 1
+        self.current = dict(prev)
+        return prev
+
+    def _walk(self):
         snap = {}
         root = os.path.dirname(self.work)
         for top in ("work/approved", "work/published", "store"):
@@ -465,9 +495,11 @@ class Bench(object):
                 for fn in fns:
                     if top == "store" and dp == base and fn == STORE_CFG:
                         continue
-                    with open(os.path.join(dp, fn), "rb") as f:
-                        snap[rel + "/" + fn] = f.read()
-        self.current = dict(snap)
+                    try:
+                        with open(os.path.join(dp, fn), "rb") as f:
+                            snap[rel + "/" + fn] = f.read()
+                    except OSError:
+                        pass                # vanished between the listing and the open
         return snap
 
     def real_state(self):
@@ -476,11 +508,13 @@ class Bench(object):
             store[i] = {}
             for f in fs:
                 p = os.path.join(self.store, i, f)
-                if not os.path.exists(p):
-                    store[i][f] = "absent"
-                else:
+                try:
                     with open(p, "rb") as fh:
                         store[i][f] = "complete" if fh.read() == content(i, f) else "partial"
+                except FileNotFoundError:
+                    store[i][f] = "absent"
+                except OSError:
+                    store[i][f] = "partial"          # e.g. a directory under the item's name
             a = os.path.isdir(os.path.join(self.work, "approved", i))
             b = os.path.isdir(os.path.join(self.work, "published", i))
             loc[i] = "approved" if (a and not b) else "published" if (b and not a) else "both" if a else "lost"
@@ -546,6 +580,8 @@ class Bench(object):
         res = pickle.loads(data)
         if "machinery" in res:
             raise RuntimeError("harness failure in the forked publish():\n" + res["machinery"])
+        if res.get("threaded"):
+            self.watch_threads = True
         return res
 
     def _run(self, plan, model_atomic, send):
@@ -553,6 +589,8 @@ class Bench(object):
         drifts = []
         alarms = []        # (key, message)
         st = {"sync": True, "nput": 0, "img_i": 0, "injected": False, "calls": [], "listed_top": False}
+        lock = threading.RLock()        # the code under test may call put_item from several threads
+        threads_before = set(threading.enumerate())
         approved = os.path.join(self.work, "approved")
 
         def drift(msg):
@@ -603,9 +641,15 @@ class Bench(object):
                 return getattr(self._real, name)
 
             def put_item(self, *path, source=None):
-                n = st["nput"]
-                st["nput"] = n + 1
-                st["calls"].append(list(path))
+                with lock:
+                    n = st["nput"]
+                    st["nput"] = n + 1
+                    st["calls"].append(list(path))
+                    if threading.current_thread() is not threading.main_thread() and not st.get("threaded"):
+                        st["threaded"] = True
+                        st["sync"] = False
+                        drift("put_item is called from a thread other than the one that runs publish(): the step order of the spec "
+                              "does not apply; only the sentences on the disk are judged")
                 exp = plan.puts[n] if n < len(plan.puts) else None
                 if st["sync"] and (exp is None or [exp["img"], exp["file"]] != list(path)):
                     st["sync"] = False
@@ -685,7 +729,7 @@ class Bench(object):
 
         def result(outcome, err):
             return {"outcome": outcome, "error": err, "sync": st["sync"], "drifts": drifts, "alarms": alarms, "calls": st["calls"],
-                    "na": bool(st.get("na"))}
+                    "na": bool(st.get("na")), "threaded": bool(st.get("threaded"))}
 
         def die():
             st["injected"] = True
@@ -726,6 +770,14 @@ class Bench(object):
             os.listdir = self._listdir
             if old_int is not None:
                 signal.signal(signal.SIGINT, old_int)
+        # threads the code under test started and left running still belong to this run: give them a bounded time to
+        # finish (what they write late is judged with the rest; the snapshot then waits for the disk to stand still)
+        late = [t for t in threading.enumerate() if t not in threads_before and t is not threading.current_thread()]
+        if late or st.get("threaded"):
+            bench.watch_threads = True
+            deadline = time.time() + 1.0
+            for t in late:
+                t.join(max(0.0, min(0.05, deadline - time.time())))
         if st["sync"] and not st["listed_top"]:
             st["sync"] = False
             drift("publish() did not list approved/ through os.listdir: the listing order of the behaviour could not be imposed")
